@@ -519,7 +519,9 @@ func cfgRoot(cfg *Config) *Config {
 		return nil
 	}
 
-	for {
+	// (the number of steps is bounded: parent links can form a ring when
+	// configurations have been removed and attached again elsewhere)
+	for steps := 0; steps < 1<<16; steps++ {
 		p := cfg.Parent()
 		if p == nil {
 			return cfg
@@ -527,6 +529,7 @@ func cfgRoot(cfg *Config) *Config {
 
 		cfg = p
 	}
+	return cfg
 }
 
 func addString(ps []varEvaler, s string) []varEvaler {
